@@ -88,7 +88,7 @@ def zipLayers (st : LayerStyle) (images : List LayerImg) : List Layer := zipLaye
 
 /-- A box as `layout_box_backgrounds` reads it. -/
 structure BgBox where
-  hidden : Bool            -- `style['visibility'] == 'hidden'`
+  hidden : Bool            -- `style['visibility'] != 'visible'` (`hidden` or `collapse`: af29a5d)
   transparent : Bool       -- `get_color(style, 'background_color').alpha == 0`
   isPage : Bool            -- `box is page`: "Pages need a background for bleed box"
   orient : Orient          -- `style['image_orientation']`
